@@ -136,7 +136,7 @@ defvjp(
 )
 defvjp(
     anp.power,
-    lambda ans, x, y: unbroadcast_f(x, lambda g: g * y * x ** anp.where(y, y - 1, 1.0)),
+    lambda ans, x, y: unbroadcast_f(x, lambda g: g * y * x ** anp.where((y != 0) | (x != 0), y - 1, 1.0)),
     lambda ans, x, y: unbroadcast_f(y, lambda g: g * anp.log(replace_zero(x, 1.0)) * ans),
 )
 defvjp(
